@@ -257,16 +257,10 @@ fn choose_unoptimized_prefixes<T: NumberLike>(
   raw_prefs
 }
 
-fn train_prefixes<T: NumberLike>(
-  unsigneds: Vec<T::Unsigned>,
+fn validate_chunk_args(
   internal_config: &InternalCompressorConfig,
-  flags: &Flags,
-  n: usize, // can be greater than unsigneds.len() if delta encoding is on
-) -> QCompressResult<Vec<Prefix<T>>> {
-  if unsigneds.is_empty() {
-    return Ok(Vec::new());
-  }
-
+  n: usize,
+) -> QCompressResult<()> {
   let comp_level = internal_config.compression_level;
   if comp_level > MAX_COMPRESSION_LEVEL {
     return Err(QCompressError::invalid_argument(format!(
@@ -282,6 +276,20 @@ fn train_prefixes<T: NumberLike>(
       n,
     )));
   }
+  Ok(())
+}
+
+fn train_prefixes<T: NumberLike>(
+  unsigneds: Vec<T::Unsigned>,
+  internal_config: &InternalCompressorConfig,
+  flags: &Flags,
+  n: usize, // can be greater than unsigneds.len() if delta encoding is on
+) -> QCompressResult<Vec<Prefix<T>>> {
+  if unsigneds.is_empty() {
+    return Ok(Vec::new());
+  }
+
+  validate_chunk_args(internal_config, n)?;
 
   let unoptimized_prefs = {
     let mut sorted = unsigneds;
@@ -474,6 +482,8 @@ impl<T> Compressor<T> where T: NumberLike {
         "attempted to write header after footer"
       ));
     }
+    // validate before writing anything so that a rejected call adds no bytes
+    self.flags.validate()?;
     self.writer.write_aligned_bytes(&MAGIC_HEADER)?;
     self.writer.write_aligned_byte(T::HEADER_BYTE)?;
     self.flags.write(&mut self.writer)?;
@@ -503,6 +513,9 @@ impl<T> Compressor<T> where T: NumberLike {
         "cannot compress empty chunk"
       ));
     }
+
+    // validate before writing anything so that a rejected call adds no bytes
+    validate_chunk_args(&self.internal_config, nums.len())?;
 
     self.writer.write_aligned_byte(MAGIC_CHUNK_BYTE)?;
 
